@@ -95,7 +95,7 @@ example : choose false [⟨[.sni [[107, 46, 116]]], false, true⟩, ⟨[], false
 theorem active_after_provision_full_fails :
     ∃ c b, provisionPolicyCA (some c) = some b ∧ activeBefore (some c) = true ∧
       b.bits.auth = .requireAnyClientCert ∧ b.activeAfter = false :=
-  ⟨⟨false, .none, .none, .none, true, .empty⟩, _, rfl, by decide, by decide, by decide⟩
+  ⟨⟨.none, .none, .none, .none, true, .empty⟩, _, rfl, by decide, by decide, by decide⟩
 
 /-- observation (client-auth correctness, not this property): `provision` swallows the error of an
     unreadable PEM file / undecodable CA certificate (`return nil`), so the policy demands
@@ -104,7 +104,7 @@ theorem active_after_provision_full_fails :
 theorem swallowed_ca_load_error :
     ∃ c b, c.pemFiles = .bad ∧ provisionPolicyCA (some c) = some b ∧
       b.bits.auth = .requireAndVerifyClientCert ∧ b.bits.clientCAs = false :=
-  ⟨⟨false, .none, .bad, .none, false, .empty⟩, _, rfl, rfl, by decide, by decide⟩
+  ⟨⟨.none, .none, .bad, .none, false, .empty⟩, _, rfl, rfl, by decide, by decide⟩
 
 /-- Protocol lines of the counter-examples; replayed on the implementation first on every run.
     Line 1 is `trapPolicies`/`trapHello` (written with the liveness flag 0 that the pinned tree
